@@ -685,14 +685,20 @@ pub fn layer_b(report: &Report, cli: &Cli, global: &GlobalContext<C>) {
         // presentation, otherwise the re-signed variants below would be vacuous
         let holder_keys: Vec<&SigningKey> = [&w3, &w3b].iter().filter_map(|c| if let Cred::W3(w) = c { Some(&w.holder) } else { None }).chain(std::iter::once(&spare_w3.holder)).collect();
         let has_w3 = creds.iter().any(|(c, _)| matches!(c, Cred::W3(_)));
+        // (if it does not - the library signs something else than the helper, which was written
+        // from the documented message layout - the re-signed variants are skipped and the run is not
+        // called exhaustive; the variants without re-signing still decide the property)
+        let mut can_resign = has_w3;
         if has_w3 {
             let mut p = clone_pres(&pres);
             resign(&mut p, &holder_keys);
             if p != pres {
-                mc_core::machinery_error("C18: re-signing helper does not reproduce the linking proof");
+                can_resign = false;
+                report.outcome("re-signing helper does not reproduce the library's linking proof: re-signed variants skipped", 1);
+                report.cap_hit("C18 layer B: linking-proof message differs from the helper's; re-signed variants skipped");
             }
         }
-        let variants: Vec<(usize, bool)> = (0..muts.len()).flat_map(|i| if has_w3 { vec![(i, false), (i, true)] } else { vec![(i, false)] }).collect();
+        let variants: Vec<(usize, bool)> = (0..muts.len()).flat_map(|i| if can_resign { vec![(i, false), (i, true)] } else { vec![(i, false)] }).collect();
         variants.par_iter().for_each(|&(mi, re_sign)| {
             let (label, expect, f) = &muts[mi];
             // With the linking proof re-signed the altering party is the holder. The creation
@@ -705,6 +711,10 @@ pub fn layer_b(report: &Report, cli: &Cli, global: &GlobalContext<C>) {
             // neighbours: its holder can sign another presentation containing it. What the verifier
             // returns is then another request; an outsider (no re-signing) is rejected as always.
             let expect = if re_sign && (label.contains(": a type ") || label.contains("network mainnet") || name.contains("without statements")) { &Expect::RejectOrOtherRequest } else { expect };
+            // The holders of the web3 credentials sign the whole list of credential proofs: in a
+            // presentation with a web3 credential nobody but them can alter anything - also not
+            // the metadata of an account credential next to it, which nothing else binds.
+            let expect = if has_w3 && !re_sign && !label.starts_with("public ") { &Expect::Reject } else { expect };
             let mut w = base_w.clone();
             w["perturbation"] = json!(label);
             if re_sign {
